@@ -28,6 +28,15 @@ AXES = {
         "max": [1.0, 17 / 16, 9 / 8, 3 / 2, 4.0],
     },
 }
+# The same index lattices on a different physical regime: short-dated, near the money, low-priced underliers (sigma*sqrt(t) between
+# 2^-11 and 2^-7, |log-moneyness| up to 2^-8, strikes down to 2^-30).  Same sizes, so every obligation TLC emits applies as it is.
+AXES["quick_micro"] = {
+    "spot": [1 - 2.0 ** -8, 1 - 2.0 ** -9, 1 - 2.0 ** -10, 1.0, 1 + 2.0 ** -10, 1 + 2.0 ** -9, 1 + 2.0 ** -8],
+    "time": [2.0 ** -12, 2.0 ** -10, 2.0 ** -8],
+    "vol": [2.0 ** -5, 2.0 ** -4, 2.0 ** -3],
+    "strike": [2.0 ** -20, 1.1 * 2.0 ** -12, 2.0 ** -30],
+    "max": [1.0, 1 + 2.0 ** -10, 1 + 2.0 ** -8],
+}
 
 PRODUCTS = ["european", "european_binary", "american_binary", "lookback"]
 PATH_DEPENDENT = {"american_binary", "lookback"}
